@@ -366,11 +366,18 @@ class Sampler():
                     if key in group:
                         setattr(self, key, np.array(group[key]))
 
-                self.bounds = [
-                    UnitCube.read(fstream['bound_0'], rng=self.rng), ]
-                for i in range(1, len(self.shell_n)):
-                    self.bounds.append(NautilusBound.read(
-                        fstream['bound_{}'.format(i)], rng=self.rng))
+                # The first bound is not necessarily the unit cube. The shell
+                # of the unit cube is removed at the end of the exploration
+                # phase if all its points were transferred to later shells.
+                self.bounds = []
+                for i in range(len(self.shell_n)):
+                    group_i = fstream['bound_{}'.format(i)]
+                    if group_i.attrs['type'] == 'UnitCube':
+                        self.bounds.append(
+                            UnitCube.read(group_i, rng=self.rng))
+                    else:
+                        self.bounds.append(
+                            NautilusBound.read(group_i, rng=self.rng))
 
     def run(self, f_live=0.01, n_shell=1, n_eff=10000, n_like_max=np.inf,
             discard_exploration=False, timeout=np.inf, verbose=False):
